@@ -365,6 +365,39 @@ func documents(c *fw.Ctx) {
 	}
 	buf = buf[:0]
 	urec(0)
+	// string literals that grow while they are unquoted: every malformed byte becomes the 3-byte U+FFFD, so the decoder's
+	// output buffer has to grow in the middle of a string - all combinations of prefix, run of malformed bytes and tail
+	c.Family("D:strings", "string literals: ASCII prefix {0,1,3} x run of 0..9 (thorough 0..16) malformed bytes of 4 kinds x tail of 0..20 (thorough 0..40) characters (plain, or with escapes) x as a value and as an object key")
+	maxBad, maxTail := 9, 20
+	if c.Thorough() {
+		maxBad, maxTail = 16, 40
+	}
+	for _, bad := range [][]byte{{0xff}, {0x80}, {0xc0}, {0xe2, 0x80}} {
+		for _, pre := range []string{"", "p", "pre"} {
+			for k := 0; k <= maxBad; k++ {
+				for n := 0; n <= maxTail; n++ {
+					for _, esc := range []string{"", "\\n", "\\u00e9", "\\ud83d\\ude00"} {
+						for _, asKey := range []bool{false, true} {
+							if !c.Next() {
+								continue
+							}
+							d := []byte("\"" + pre)
+							for i := 0; i < k; i++ {
+								d = append(d, bad...)
+							}
+							d = append(d, strings.Repeat("t", n)...)
+							d = append(d, esc...)
+							d = append(d, '"')
+							if asKey {
+								d = append(append([]byte("{"), d...), []byte(":1}")...)
+							}
+							st.doc(d)
+						}
+					}
+				}
+			}
+		}
+	}
 	c.Family("D:tokens", fmt.Sprintf("all sequences of <= 3 (thorough 4) tokens of a %d-token alphabet", len(tokens)))
 	maxTok := 3
 	if c.Thorough() {
